@@ -21,7 +21,8 @@ from . import coqrun
 from .common import COQ
 
 FOREIGN = 1_000_000
-COQ_FILES = ["C14D/Dom.v", "C14D/DomProofs.v", "C14D/Ssa.v", "C14D/SsaProofs.v", "C14D/PropsDom.v"]
+COQ_FILES = ["C14D/Dom.v", "C14D/DomProofs.v", "C14D/Ssa.v", "C14D/SsaProofs.v", "C14D/PropsDom.v",
+             "C14D/MakeSsa.v", "C14D/MakeSsaProofs.v", "C14D/PropsMakeSsa.v"]
 IMPORTS = "From Coq Require Import NArith.\nFrom Verif Require Import C14D.Dom C14D.Ssa.\nOpen Scope N_scope.\n"
 SSA_OFF_AFTER = ("Mem2Var", "FmpLoweringPass")
 
@@ -221,7 +222,11 @@ def ssa_witness(ex):
                 have = {lab.value for lab, _ in inst.phi_operands}
                 for p in preds:
                     if lbl[p] not in have:
-                        return {"problem": f"phi has no operand for predecessor {lbl[p]}", "instruction": str(inst), "block": lbl[b]}
+                        # MakeSSA drops `x = phi(.., p: x)`: the phi keeps its value on that edge, fine if b dominates p
+                        av = reach_avoiding(succ, b)
+                        if b == 0 or p in av:
+                            return {"problem": f"phi has no operand for predecessor {lbl[p]} and {lbl[b]} does not dominate it",
+                                    "instruction": str(inst), "block": lbl[b], "path": [lbl[i] for i in av.get(p, [0])] + [lbl[b]]}
                 continue
             for o in inst.operands:
                 if not isinstance(o, IRVariable):
@@ -592,10 +597,12 @@ def part_dom(ctx):
             raise Hang()
         old = signal.signal(signal.SIGALRM, on_alarm)
         hangs = []
-        with Observer(max_insts=700 if ctx.tier == "quick" else 1500) as obs:
+        from . import c14d_makessa as MS
+        with Observer(max_insts=700 if ctx.tier == "quick" else 1500) as obs, MS.Observer(max_insts=700 if ctx.tier == "quick" else 1500) as mobs:
             try:
                 signal.alarm(30)
                 compile_shapes()
+                MS.run_random(ctx.rng("c14d-random-cfg"), 60 if ctx.tier == "quick" else 600)
             except Hang:
                 hangs.append("hand-written CFG shapes (MakeSSA + analyses)")
             except Exception as e:  # noqa
@@ -629,6 +636,12 @@ def part_dom(ctx):
     doms = pick(list(obs.dom.values()), 40 if quick else 900, rnd, "nblocks")
     ssas = pick(list(obs.ssa.values()), 70 if quick else 900, rnd, "ninsts")
     dfgs = pick(list(obs.dfg.values()), 30 if quick else 500, rnd, "ninsts")
+    mcases = sorted(mobs.cases.values(), key=lambda c: (-(c.ninsts if c.problem is None else 10**9), c.name, c.key()))
+    mcap = 150 if quick else 1500
+    if len(mcases) > mcap:
+        mcases = mcases[:mcap // 3] + rnd.sample(mcases[mcap // 3:], mcap - mcap // 3)
+    if mobs.errors:
+        ctx.violation("correspondence-broken", "cannot snapshot a MakeSSA invocation: " + mobs.errors[0], {"errors": mobs.errors[:5]})
     stats = {"programs": len(progs), "compile_failures": nfail, "compile_seconds": round(t_compile, 1), "calls": obs.calls,
              "distinct": {"dom": len(obs.dom), "ssa": len(obs.ssa), "dfg": len(obs.dfg)}, "too_big_skipped": obs.skipped_big,
              "functions_with_unreachable_blocks_at_dominator_analysis": obs.unreachable_at_dom,
@@ -644,10 +657,11 @@ def part_dom(ctx):
                 fd = ex.submit(eval_dom, doms, 100 if quick else 400)
                 fs = ex.submit(eval_ssa, ssas)
                 fg = ex.submit(eval_dfg, dfgs)
-                rd, rs, rg = fd.result(), fs.result(), fg.result()
+                fm = ex.submit(MS.evaluate, [c for c in mcases if c.problem is None])
+                rd, rs, rg, rm = fd.result(), fs.result(), fg.result(), fm.result()
         except RuntimeError as e:
             ctx.violation("correspondence-broken", "the validators could not be evaluated on the exported results", {"error": str(e)[-1500:]})
-            rd = rs = rg = None
+            rd = rs = rg = rm = None
         stats["coq_seconds"] = round(time.time() - t0, 1)
         if rd is not None:
             names = ["cfg", "reachable", "dom_sound", "dom_complete", "idom", "df"]
@@ -705,11 +719,44 @@ def part_dom(ctx):
                                       dict(detail, **s["witness"]), key="dfg")
                     else:
                         ctx.violation("theorem-broken", "dfg_check rejects the DFGAnalysis result", detail)
+    if model_ok and rm is not None:
+        ms = {"makessa_invocations": mobs.calls, "distinct": len(mobs.cases), "checked": len(mcases), "accepted": 0,
+              "precondition_violated_inputs": 0, "new_phis": 0, "inserted_assigns": 0, "new_versions": 0, "too_big_skipped": mobs.skipped_big}
+        it = iter(rm)
+        nrep = 0
+        for c in mcases:
+            total += 1
+            r = [0] if c.problem is not None else next(it)
+            if c.problem is None:
+                ms["new_phis"] += c.n_new_phis
+                ms["inserted_assigns"] += c.n_extra
+                ms["new_versions"] += c.n_versions
+            if r == [1]:
+                ms["accepted"] += 1
+                continue
+            pre = MS.reads_unassigned(c.before) if c.problem is None else None
+            if pre is not None:
+                ms["precondition_violated_inputs"] += 1      # the input reads an unassigned variable: nothing is claimed
+                continue
+            if nrep >= 2:
+                continue
+            nrep += 1
+            w = MS.witness(c)
+            detail = {"function_before": MS.text_of(c.before)[:5000], "function_after": MS.text_of(c.after)[:6000],
+                      "call": "MakeSSA(IRAnalysesCache(fn), fn).run_pass() on function_before"}
+            if w is not None:
+                found = True
+                ctx.violation("failing-input", "MakeSSA does not preserve behaviour: " + w["problem"], dict(detail, **w), key="makessa:values")
+            else:
+                ctx.violation("theorem-broken", "makessa_check_sound does not apply: the certificate for a MakeSSA invocation is rejected "
+                              "(function " + c.name + ")", dict(detail, certificate=c.cert[:3000]))
+        stats["makessa"] = ms
     if not b["ok"] and not found:
         ctx.violation("theorem-broken", f"{b.get('failed_lemma')} in {b['file']}",
                       {"theorem": b.get("failed_lemma"), "file": b["file"], "coq_output": b["out"][-1500:]})
     ctx.corr["dominators_ssa_dfg"] = stats
-    ctx.log(f"C14D: compile {t_compile:.1f}s, coq {stats.get('coq_seconds')}s, checked {stats['checked']}, accepted {stats['accepted']}")
+    ctx.log(f"C14D: compile {t_compile:.1f}s, coq {stats.get('coq_seconds')}s, checked {stats['checked']}, accepted {stats['accepted']}, "
+            f"makessa {stats.get('makessa')}")
     if doms:
         ctx.samples.append({"validated_dominator_tree": doms[0]["name"], "blocks": doms[0]["nblocks"]})
     ctx.trusted += ["C14D: export of IRFunction objects to Coq literals (tools/vlib/c14d_part.py Export); the CFG of the theorems is the "
